@@ -427,7 +427,7 @@ class Path:
         self.conds = conds  # list of (atom term, bool)
         self.outcome = outcome  # 'return' | 'raise' | 'fall'
         self.value = value
-        self.effects = effects  # terms of expression statements
+        self.effects = effects  # ("expr", number of conditions taken before it, term) for expression statements, ("store", ..), ...
         self.env = env
 
     def cond(self, atom):
@@ -549,7 +549,8 @@ class SymExec:
             yield st, None, None
         elif isinstance(node, ast.Expr):
             if not (isinstance(node.value, ast.Constant)):
-                st.effects.append(self.ev(node.value, st, module, depth))
+                v = self.ev(node.value, st, module, depth)
+                st.effects.append(("expr", len(st.conds), v))  # with the number of conditions taken so far
             yield st, None, None
         elif isinstance(node, ast.Assert):
             st.effects.append(("assert", self.ev(node.test, st, module, depth)))
